@@ -204,6 +204,18 @@ func judge(text []byte, want any) verdict {
 		}
 	case d.Kind == "extra" || d.Kind == "duplicate":
 		core = "extra-member"
+	case d.Kind == "wrong-length":
+		// which way: every element gone, some gone, or more than there were
+		w, _ := d.Want.([]any)
+		g, _ := d.Got.([]any)
+		switch {
+		case len(g) == 0:
+			core = "elements-lost:all"
+		case len(g) < len(w):
+			core = "elements-lost:some"
+		default:
+			core = "elements-added"
+		}
 	}
 	return verdict{core: core, exp: exp, obs: fmt.Sprintf("%s; parsed %s from %q", d, wref.GoLit(got), text), node: d.WantKind}
 }
